@@ -15,6 +15,10 @@ ROOT = os.path.dirname(os.path.dirname(os.path.abspath(__file__)))
 PY = os.path.join(ROOT, ".venv", "bin", "python")
 WORK = os.path.join(ROOT, ".work")
 KF_PATH = os.path.join(ROOT, "known_findings.json")
+# Where evidence / replays are written. Default: /verif itself (the registered commands). tools/seedtest.py points it at a
+# scratch directory when a seeded change is checked from a scratch worktree (PYTHONPATH), so that neither /repo nor the
+# committed evidence is touched and several seeded changes can be checked side by side.
+OUT = os.environ.get("VERIF_OUT") or ROOT
 
 EXIT_OK, EXIT_VIOLATION, EXIT_HARNESS = 0, 1, 3
 
@@ -104,7 +108,7 @@ def run_worker(case, workdir, kill_after):
 def write_replay(prop, case, res):
     from engine.worker import harness_source
 
-    d = os.path.join(ROOT, "replays", prop)
+    d = os.path.join(OUT, "replays", prop)
     os.makedirs(d, exist_ok=True)
     path = os.path.join(d, case["id"].replace("/", "_").replace(" ", "_") + ".py")
     src = harness_source(case)
@@ -326,8 +330,8 @@ def run_property(prop, tier, seed, only=None, jobs=None, verbose=False):
         "violations": len(violations),
     }
     if not only:
-        os.makedirs(os.path.join(ROOT, "evidence"), exist_ok=True)
-        with open(os.path.join(ROOT, "evidence", f"{prop}.json"), "w") as f:
+        os.makedirs(os.path.join(OUT, "evidence"), exist_ok=True)
+        with open(os.path.join(OUT, "evidence", f"{prop}.json"), "w") as f:
             json.dump(ev, f, indent=1, default=repr)
     n_open = counts["UNKNOWN"] + counts["KILLED"]
     if n_open:
